@@ -481,7 +481,13 @@ def wbem_request(conn, req_data, cimxml_headers, target_type='server'):
         'Content-type': 'application/xml; charset="utf-8"',
         'Content-length': f'{len(req_body)}',
     }
-    req_headers.update(dict(cimxml_headers))
+    # Two-step encoding of the CIM-XML extension header values required by
+    # DSP0200: UTF-8, then %-escaping of everything that is not printable
+    # ASCII (and of the escape character itself).
+    req_headers.update(
+        {name: urllib.parse.quote(
+            value, safe=" !\"#$&'()*+,-./:;<=>?@[\\]^_`{|}~")
+         for name, value in cimxml_headers})
 
     if target_type == 'server' and conn.creds is not None:
         auth = f'{conn.creds[0]}:{conn.creds[1]}'
